@@ -17,7 +17,7 @@ GUARD = 5.0
 
 KEYPOINTS = [[0.0, 1.0], [0.0, 1.0, 2.0], [0.0, 1.0, 3.0], [0.0, 0.1, 1.0, 4.0],
              [0.0, 1.0, 2.0, 3.0, 4.0]]
-BOUNDS = [(None, None), (0.0, None), (None, 1.0), (0.0, 1.0), (-1.0, 2.0)]
+BOUNDS = [(None, None), (0.0, None), (None, 1.0), (0.0, 1.0), (-1.0, 2.0), (None, 0.0), (-1.0, 0.0)]
 
 
 def configs(tier, seed=0):
